@@ -7,8 +7,6 @@ import (
 	"fmt"
 	"strconv"
 	"strings"
-
-	"verif/engine"
 )
 
 const (
@@ -170,6 +168,5 @@ func buildHistory(p *program, perm []int, mode string, uniq func(string) string)
 	default:
 		return nil, fmt.Errorf("unknown mode %q", mode)
 	}
-	_ = engine.Quick
 	return
 }
